@@ -253,6 +253,60 @@ def gen_deep_family(rng):
     order = [0, 1, 2, 0, 1] if rng.random() < 0.5 else [1, 0, 2, 1, 0]
     return kind, [members[i] for i in order]
 
+
+# --------------------------------------------------------------------------- re-instantiation stream
+def str_val(e, env):
+    k = e[0]
+    if k == "str": return e[1]
+    if k == "var": return env[e[1]]
+    if k == "e2" and e[1] == "OConcat": return str_val(e[2], env) + str_val(e[3], env)
+    raise ValueError(e)
+
+
+def gen_re_var(rng, d):
+    """regex whose operands mention the variable x (str.to_re x, str.to_re (str.++ x k), ranges, re.++ / union / * / + / opt)"""
+    if d <= 0 or rng.random() < 0.3:
+        k = rng.random()
+        lit = ("str", rng.choice(["a", "b", "01", "=", "ab", "é", "."]))
+        if k < 0.45: return ("e1", "OToRe", X)
+        if k < 0.6: return ("e1", "OToRe", ("e2", "OConcat", X, lit) if rng.random() < 0.5 else ("e2", "OConcat", lit, X))
+        if k < 0.85: return ("e1", "OToRe", lit)
+        return ("e2", "ORange", ("str", rng.choice(["a", "0", "A"])), ("str", rng.choice(["c", "z", "9"])))
+    k = rng.choice(["cat", "cat", "cat", "union", "star", "plus", "opt"])
+    if k == "cat": return ("e2", "ORConcat", gen_re_var(rng, d - 1), gen_re_var(rng, d - 1))
+    if k == "union": return ("e2", "ORUnion", gen_re_var(rng, d - 1), gen_re_var(rng, d - 1))
+    return ("e1", {"star": "OStar", "plus": "OPlus", "opt": "OOpt"}[k], gen_re_var(rng, d - 1))
+
+
+def sample_match(rx, env, rng):
+    """some string of the regex's language under the instantiation env (SMT-LIB reading)"""
+    k = rx[1]
+    if k == "OToRe": return str_val(rx[2], env)
+    if k == "ORange":
+        a, b = rx[2][1], rx[3][1]
+        return chr(rng.randint(ord(a), ord(b))) if ord(a) <= ord(b) else ""
+    if k == "ORConcat": return sample_match(rx[2], env, rng) + sample_match(rx[3], env, rng)
+    if k == "ORUnion": return sample_match(rng.choice([rx[2], rx[3]]), env, rng)
+    n = {"OStar": rng.choice([0, 1, 2]), "OPlus": rng.choice([1, 2]), "OOpt": rng.choice([0, 1])}[k]
+    return "".join(sample_match(rx[2], env, rng) for _ in range(n))
+
+
+def gen_reinst_family(rng):
+    """ONE atom whose regex operand mentions x, judged 5 times in a row with different instantiations
+    (the matching subject of one instantiation is offered again under the next one)"""
+    while True:
+        rx = gen_re_var(rng, rng.choice([1, 2, 2, 3]))
+        if "var" in ops_of(rx, []):
+            break
+    subj = Y if rng.random() < 0.75 else ("e2", "OConcat", Y, ("str", rng.choice(["", "a", "01"])))
+    e = ("e2", "OInRe", subj, rx)
+    if rng.random() < 0.25:
+        e = ("e1", "ONot", e) if rng.random() < 0.5 else ("e2", "OAnd", e, ("e2", "OGe", ("e1", "OLen", Y), ("int", 0)))
+    xs = rng.sample(["a", "b", "ab", "0", "a1", "é", "", "ba", "c"], 3)
+    ys = [sample_match(rx, {"x": x}, rng)[:12] for x in xs]
+    seq = [(xs[0], ys[0]), (xs[1], ys[0]), (xs[1], ys[1]), (xs[2], ys[1]), (xs[0], ys[2])]
+    return [(e, x, y) for x, y in seq]
+
 # --------------------------------------------------------------------------- printers
 def smt_str(s):
     out = []
@@ -400,7 +454,7 @@ def probe_fx():
 
 
 # --------------------------------------------------------------------------- Coq side
-def coq_codes(tag, fx, cases, shard=130):
+def coq_codes(tag, fx, cases, shard=400):
     """case_code of every case (list of ints); raises RuntimeError when Coq fails"""
     os.makedirs(lib.BUILD, exist_ok=True)
     files = []
@@ -413,7 +467,7 @@ def coq_codes(tag, fx, cases, shard=130):
             f.write(f"Eval vm_compute in (map (case_code {'true' if fx else 'false'}) cs).\n")
         files.append(name)
     res, err = {}, None
-    with cf.ThreadPoolExecutor(max_workers=lib.NPROC) as ex:
+    with cf.ThreadPoolExecutor(max_workers=min(lib.NPROC, 8)) as ex:
         for path, rc, out in ex.map(lib._run_coqc, files):
             vals = lib.parse_N_list(out) if rc == 0 else None
             if vals is None:
@@ -519,14 +573,15 @@ def decode(code):
 def run(run):
     rng = random.Random(run.seed)
     thorough = run.tier == "thorough"
-    n_atoms = 8000 if thorough else 1200
+    n_atoms = 8000 if thorough else 1100
     run.cov["rule"] = ("atoms generated type-directed (Bool/Int/String/RegLan) from SMT-LIB text over every operator of "
                        "SmtAst.v, depth <= 4, literals and variable instantiations from a nasty pool (empty, newline, quote, "
                        "backslash, non-ASCII, > U+00FF, signed/padded numerals, class metacharacters), negative values via (- 0 n) and "
                        "(- n), zero divisors; plus a long-numeral profile (str.to_int of 16-21 digit numerals >= 2^53 under comparison, "
                        "equality, mod, arithmetic, neighbouring numerals as x / y) and a stateful stream (families of atoms "
                        "nested 23-33 levels that differ only at the deepest leaf and have different verdicts, judged "
-                       "consecutively and repeatedly in one process); each atom judged by is_valid (instantiated) and by evaluate() "
+                       "consecutively and repeatedly in one process) and a re-instantiation stream (one atom whose regex operand mentions a "
+                       "variable - and general atoms with variables - judged 3-5 times in a row under different instantiations); each atom judged by is_valid (instantiated) and by evaluate() "
                        "(forall-bound variables), by the Coq model and by Z3. non-trivial = the atom contains an "
                        "operator application of depth >= 2")
     proof_ok = run.proof_stage()
@@ -570,6 +625,26 @@ def run(run):
                                   "nesting_levels": "23-33 (+2..4 for the comparison around it)", "family_kinds": kinds,
                                   "pairs_same_printed_text_different_verdict": collisions,
                                   "note": "z3's printer abbreviates below ~20 levels: these pairs share str(formula)"}
+    # re-instantiation stream: the SAME atom (translated closure cached per atom) under different instantiations
+    n_re, n_gr = (150, 150) if thorough else (22, 14)
+    verdict_changes = 0
+    for f in range(n_re + n_gr):
+        if f < n_re:
+            seq = gen_reinst_family(rng)
+        else:
+            while True:
+                e = gen_fast.g_bool(rng.choice([2, 3]))
+                if has_var(e) and len(to_smt(e)) <= 400:
+                    break
+            seq = [(e, rng.choice(STR_POOL), rng.choice(STR_POOL)) for _ in range(3)]
+        fam = []
+        for e, sx, sy in seq:
+            r = run_case(e, sx, sy); r["stream"] = f"reinst-{f}"; fam.append(r); records.append(r)
+        verdict_changes += sum(1 for a, b in zip(fam, fam[1:]) if a["z3"] != b["z3"])
+    run.cov["reinstantiation_stream"] = {"regex_operand_families": n_re, "general_families": n_gr,
+                                         "judgements": 5 * n_re + 3 * n_gr,
+                                         "consecutive_judgements_with_different_z3_verdict": verdict_changes,
+                                         "note": "one atom, evaluate()/closure path and is_valid, 3-5 instantiations in a row in one process"}
     run.cov["long_numeral_atoms"] = n_num
     run.cov["impl_seconds"] = round(time.time() - t_impl, 1)
 
